@@ -562,6 +562,79 @@ def run_sources(ctx, corpus=False):
                 g.close()
 
 
+CONV_TAG = b"allmydata_immutable_content_to_key_with_added_secret_v1+"
+
+
+def ref_convergent_key(k, n, segsize, secret, data):
+    """the documented derivation, computed independently with hashlib: SHA-256d over netstring(tag) + data, 16 bytes,
+    tag = CONV_TAG + netstring(secret) + netstring("k,n,segsize")"""
+    import hashlib
+
+    def ns(b):
+        return b"%d:%s," % (len(b), b)
+    tag = CONV_TAG + ns(secret) + ns(b"%d,%d,%d" % (k, n, segsize))
+    return hashlib.sha256(hashlib.sha256(ns(tag) + data).digest()).digest()[:16]
+
+
+def run_segsize_corpus(ctx):
+    """Fixed corpus (seeded C05-d): several convergent uploads in ONE process with the same k, N and secret but different
+    effective segment sizes, in a fixed order.  Each cap's key must be the documented hash of (secret, k, N, segment size,
+    plaintext) -- so it cannot depend on what was uploaded before -- and changing only the segment size must change the
+    storage index, while going back to the first segment size gives the first cap again."""
+    import grid
+    from allmydata.immutable import upload
+    from allmydata.util import hashutil
+    from allmydata import uri
+    secret = b"corpus-secret-16"
+    k, n = 2, 3
+    # hashutil level, no grid: same (k, n, secret), segment sizes in a fixed order
+    lines, impl, metas = [], [], []
+    for segsize, data in ((60, b"a" * 60), (100, b"a" * 60), (60, b"b" * 75), (1024, b""), (100, b"a" * 60)):
+        key = hashutil.convergence_hash(k, n, segsize, data, secret)
+        case = {"kind": "segsize-corpus", "level": "hashutil", "k": k, "n": n, "segsize": segsize, "data": data.hex()}
+        if key != ref_convergent_key(k, n, segsize, secret, data):
+            ctx.violation("convergence_hash differs from the documented derivation (depends on earlier calls?)", case,
+                          "convergent-key-differs-from-spec:hashutil")
+        lines.append("key %d %d %d %s %s" % (k, n, segsize, hx(secret), hx(data) if data else "."))
+        impl.append("%s;%s" % (hx(key), hx(hashutil.storage_index_hash(key))))
+        metas.append(case)
+        ctx.case(("SegC", "hashutil", segsize, data.hex()))
+    with grid.Runtime(seed=5, policy="random") as rt:
+        g = grid.Grid(grid.fresh_dir("c05g"), rt, num_servers=n, num_clients=1, k=k, happy=1, n=n, max_segment_size=100)
+        try:
+            c = g.clients[0]
+            data = bytes((i * 11 + 5) % 256 for i in range(200))
+            seen = []
+            for ms in (100, 50, 64, 100, 1048576, 50):
+                u = upload.Data(data, convergence=secret)
+                u.max_segment_size = ms
+                case = {"kind": "segsize-corpus", "level": "upload", "k": k, "n": n, "maxSeg": ms, "size": len(data)}
+                try:
+                    cap = uri.from_string(rt.wait(c.upload(u)).get_uri())
+                except Exception as ex:
+                    ctx.violation("corpus upload failed", case, "segsize-corpus-upload-failed-" + type(ex).__name__, repr(ex)[:200])
+                    continue
+                seg = -(-min(ms, len(data)) // k) * k
+                if cap.key != ref_convergent_key(k, n, seg, secret, data):
+                    ctx.violation("the cap's key is not the documented hash of (secret, k, N, segment size, plaintext): it depends "
+                                  "on what was uploaded earlier in the process", case, "convergent-key-differs-from-spec:upload")
+                for (ms0, seg0, cap0) in seen:
+                    if seg0 != seg and cap0.get_storage_index() == cap.get_storage_index():
+                        ctx.violation("changing only the segment size left the storage index unchanged", dict(case, other=ms0),
+                                      "si-not-separated-maxSeg")
+                    if seg0 == seg and cap0.to_string() != cap.to_string():
+                        ctx.violation("same (plaintext, secret, k, N, segment size) but a different cap", dict(case, other=ms0),
+                                      "cap-not-deterministic-maxSeg")
+                seen.append((ms, seg, cap))
+                ctx.case(("SegC", "upload", ms))
+                ctx.count("corpus:segsize")
+        finally:
+            g.close()
+    model = ctx.model(lines)
+    if model is not None:
+        ctx.compare("convergence_hash for one (k, N, secret) and changing segment sizes, in a fixed order", metas, impl, model)
+
+
 def split_by(d, sizes):
     """the model's `splitBy`: pieces of the cycling sizes, the rest as one piece"""
     out, sizes = [], list(sizes)
@@ -645,6 +718,9 @@ def run_via(ctx, corpus=False):
                             key = b""
                         else:
                             key = cap.key
+                            if conv is not None and key != ref_convergent_key(k, n, -(-min(max_seg, size) // k) * k, conv, data):
+                                ctx.violation("the cap's key is not the documented hash of (secret, k, N, segment size, plaintext)",
+                                              case, "convergent-key-differs-from-spec:via")
                             out = "%s;CHK;%s;%d;%d;%d;%d" % (",".join("%d+%d" % x for x in u.calls) or "-", hx(key), cap.needed_shares,
                                                            cap.total_shares, cap.size, res.get_pushed_shares() + res.get_preexisting_shares())
                         lines.append("via %s %d %d %d %d %s %s" % (hx(key), k, n, max_seg, chunk, hx(data), ",".join(map(str, spec)) or "-"))
@@ -669,6 +745,8 @@ def run(ctx):
     # fixed corpus first (independent of VERIF_SEED): one minimal input per known mechanism --
     #   multi-piece IUploadable.read vs Data (seeded C05-a), literal uploads without servers (C05-b),
     #   unflushed / repositioned / descriptor-less file objects vs Data (C05-c)
+    #   convergent keys for one (k, N, secret) and changing segment sizes in one process (C05-d)
+    run_segsize_corpus(ctx)
     run_via(ctx, corpus=True)
     run_noservers(ctx, corpus=True)
     run_sources(ctx, corpus=True)
